@@ -193,6 +193,11 @@ class Ctx:
                     continue
                 (self.fixed_findings if e.get("fixed") else self.known_findings).append(e)
 
+    def active_known_ids(self) -> set:
+        """ids of listed (unfixed) known findings: only these may suppress a failing case; a `fixed`
+        entry suppresses nothing, and an id a module invents without a committed entry neither."""
+        return {e.get("id") for e in self.known_findings if e.get("id")}
+
     # -- scratch -------------------------------------------------------------
     def tmpdir(self) -> Path:
         if self._tmp is None:
@@ -475,11 +480,12 @@ def differential(ctx: Ctx, spec: DiffSpec) -> dict:
     ev = eval_cases(spec.cases, spec.impl, spec.holds, spec.known, spec.nontrivial)
     ctx.evaluations += len(spec.cases)
     fails, diverge, known_hits = [], [], {}
+    active = ctx.active_known_ids()
     for c, (r, ok, why, kid, nt) in zip(spec.cases, ev):
         if nt is not None:
             ctx.nontrivial.add((spec.name, nt))
         if not ok:
-            if kid:
+            if kid and kid in active:
                 known_hits[kid] = known_hits.get(kid, 0) + 1
             else:
                 fails.append((c, r, why))
@@ -505,6 +511,7 @@ def sweep_differential(ctx: Ctx, name: str, requires: list[str], shards: list[tu
     t = time.time()
     fails, diverge, known_hits = [], [], {}
     model_err = None
+    active = ctx.active_known_ids()
     flat = [c for _, cases in shards for c in cases]
     ev = eval_cases(flat, impl, holds, known, nontrivial)
     try:
@@ -520,7 +527,7 @@ def sweep_differential(ctx: Ctx, name: str, requires: list[str], shards: list[tu
         if nt is not None:
             ctx.nontrivial.add((name, nt))
         if not ok:
-            if kid:
+            if kid and kid in active:
                 known_hits[kid] = known_hits.get(kid, 0) + 1
             else:
                 fails.append((c, r, why))
